@@ -510,6 +510,32 @@ def fast_subdir(name):
 # Apalache: inductive invariants (unbounded safety of the small Layer A machines)
 # ---------------------------------------------------------------------------
 
+def tlaps_prove(module, timeout=900):
+    """Check the TLAPS proofs of spec/proofs/<module>.tla with tlapm (all back ends it needs are installed).
+    -> dict(tool, module, obligations, proved, theorems, wall_s).  An unproved obligation is a machinery failure: the
+    proofs are part of the specification, not a judgement about the code."""
+    wd = subdir("tlaps-" + module)
+    for d in spec_dirs():
+        for f in os.listdir(d):
+            if f.endswith(".tla"):
+                shutil.copyfile(os.path.join(d, f), os.path.join(wd, f))
+    t0 = time.time()
+    try:
+        p = subprocess.run(["tlapm", "--cleanfp", "--threads", "4", module + ".tla"], cwd=wd, stdout=subprocess.PIPE, stderr=subprocess.STDOUT,
+                           timeout=timeout, text=True, env=dict(os.environ, TMPDIR=wd))
+    except (subprocess.TimeoutExpired, FileNotFoundError) as ex:
+        raise MachineryError("tlapm failed on %s: %r" % (module, ex))
+    m = re.search(r"All (\d+) obligations? proved", p.stdout)
+    if not m:
+        tail = "\n".join(l for l in p.stdout.splitlines() if not l.startswith(("Called from", "Raised")))[-1500:]
+        raise MachineryError("tlapm: unproved obligations in %s:\n%s" % (module, tail))
+    with open(os.path.join(wd, module + ".tla")) as fh:
+        thms = re.findall(r"^THEOREM (\w+)", fh.read(), re.M)
+    shutil.rmtree(os.path.join(wd, ".tlacache"), ignore_errors=True)
+    return {"tool": "tlapm (TLAPS)", "module": "spec/proofs/%s.tla" % module, "obligations": int(m.group(1)), "proved": int(m.group(1)),
+            "theorems": thms, "wall_s": round(time.time() - t0, 1)}
+
+
 def apalache_inductive(module, init, nxt, indinit, inv, timeout=600):
     """Discharge  init => inv  and  inv /\\ next => inv'  with apalache-mc. Returns dict(obligations, discharged, wall)."""
     wd = subdir("apa-" + module)
